@@ -472,6 +472,50 @@ fn uint_bitwise<const L: usize>(c: &Case, rep: &mut Rep) {
     let andl: Vec<u64> = x.iter().map(|a| a & y[0]).collect();
     ex(rep, "bitand_limb", &ul(&ux.bitand_limb(Limb(y[0]))), &andl);
     ex(rep, "Int::bitand_limb", &ul(ux.as_int().bitand_limb(Limb(y[0])).as_uint()), &andl);
+    // the signed type offers the same bitwise surface on the two's-complement bit pattern
+    // (found unreached by the coverage audit): inherent, checked, operator, assigning and
+    // Wrapping<Int> forms of and / or / xor / not
+    {
+        let (ix, iy) = (ux.as_int(), uy.as_int());
+        macro_rules! int_bitop {
+            ($name:literal, $m:ident, $w:ident, $c:ident, $op:tt, $opa:tt, $want:expr) => {{
+                let want: &Vec<u64> = $want;
+                ex(rep, concat!("Int::", $name), &ul(ix.$m(&iy).as_uint()), want);
+                ex(rep, concat!("Int::wrapping_", $name), &ul(ix.$w(&iy).as_uint()), want);
+                match Option::<Int<L>>::from(ix.$c(&iy)) {
+                    Some(v) => ex(rep, concat!("Int::checked_", $name), &ul(v.as_uint()), want),
+                    None => rep.fail(concat!("Int::checked_", $name, ".always_some"), "none".into()),
+                }
+                ex(rep, concat!("Int::op_", $name, "_val_val"), &ul((ix $op iy).as_uint()), want);
+                ex(rep, concat!("Int::op_", $name, "_val_ref"), &ul((ix $op &iy).as_uint()), want);
+                ex(rep, concat!("Int::op_", $name, "_ref_val"), &ul((&ix $op iy).as_uint()), want);
+                ex(rep, concat!("Int::op_", $name, "_ref_ref"), &ul((&ix $op &iy).as_uint()), want);
+                let mut t = ix;
+                t $opa iy;
+                ex(rep, concat!("Int::op_", $name, "_assign"), &ul(t.as_uint()), want);
+                let mut t = ix;
+                t $opa &iy;
+                ex(rep, concat!("Int::op_", $name, "_assign_ref"), &ul(t.as_uint()), want);
+                let (wx, wy) = (Wrapping(ix), Wrapping(iy));
+                ex(rep, concat!("Wrapping<Int>::op_", $name, "_val_val"), &ul((wx $op wy).0.as_uint()), want);
+                ex(rep, concat!("Wrapping<Int>::op_", $name, "_val_ref"), &ul((wx $op &wy).0.as_uint()), want);
+                ex(rep, concat!("Wrapping<Int>::op_", $name, "_ref_val"), &ul((&wx $op wy).0.as_uint()), want);
+                ex(rep, concat!("Wrapping<Int>::op_", $name, "_ref_ref"), &ul((&wx $op &wy).0.as_uint()), want);
+                let mut t = wx;
+                t $opa wy;
+                ex(rep, concat!("Wrapping<Int>::op_", $name, "_assign"), &ul(t.0.as_uint()), want);
+                let mut t = wx;
+                t $opa &wy;
+                ex(rep, concat!("Wrapping<Int>::op_", $name, "_assign_ref"), &ul(t.0.as_uint()), want);
+            }};
+        }
+        int_bitop!("and", bitand, wrapping_and, checked_and, &, &=, &and);
+        int_bitop!("or", bitor, wrapping_or, checked_or, |, |=, &or);
+        int_bitop!("xor", bitxor, wrapping_xor, checked_xor, ^, ^=, &xor);
+        ex(rep, "Int::not", &ul(ix.not().as_uint()), &not);
+        ex(rep, "Int::op_not", &ul((!ix).as_uint()), &not);
+        ex(rep, "Wrapping<Int>::op_not", &ul((!Wrapping(ix)).0.as_uint()), &not);
+    }
     ex(rep, "wrapping_and", &ul(&ux.wrapping_and(&uy)), &and);
     ex(rep, "op_and", &ul(&(ux & uy)), &and);
     ex(rep, "op_and_ref", &ul(&(&ux & &uy)), &and);
@@ -854,6 +898,19 @@ fn c_boxed_bitwise(c: &Case, rep: &mut Rep) {
     let andl: Vec<u64> = x.iter().map(|a| a & y[0]).collect();
     exb(rep, "boxed.bitand_limb", &b1.bitand_limb(Limb(y[0])), &andl);
     exb(rep, "boxed.wrapping_and", &b1.wrapping_and(&b2), &and);
+    // checked_* bitwise forms are documented as always `some`
+    match ct(b1.checked_and(&b2)) {
+        Some(v) => exb(rep, "boxed.checked_and", &v, &and),
+        None => rep.fail("boxed.checked_and.always_some", "none".into()),
+    }
+    match ct(b1.checked_or(&b2)) {
+        Some(v) => exb(rep, "boxed.checked_or", &v, &or),
+        None => rep.fail("boxed.checked_or.always_some", "none".into()),
+    }
+    match ct(b1.checked_xor(&b2)) {
+        Some(v) => exb(rep, "boxed.checked_xor", &v, &xor),
+        None => rep.fail("boxed.checked_xor.always_some", "none".into()),
+    }
     exb(rep, "boxed.op_and", &(b1.clone() & b2.clone()), &and);
     exb(rep, "boxed.op_and_ref", &(&b1 & &b2), &and);
     exb(rep, "boxed.bitor", &b1.bitor(&b2), &or);
